@@ -169,9 +169,9 @@ class FullGaussianObservationModel(GaussianObservationModel):
         n_obs = state["n_obs"]
         # TODO? by linearity couldn't we only require `-2*y_x_model + model_x_model` as summary stat?
         # and couldn't we even collect the already summed version of it?
-        s1 = sum_dim(y_x_model)
-        s2 = sum_dim(model_x_model)
-        noise_var = (y_l2 - 2 * s1 + s2) / n_obs.float()
+        # sum must be done after computation to use weights of y in model to mask missing data
+        summed = sum_dim(-2 * y_x_model + model_x_model)
+        noise_var = (y_l2 + summed) / n_obs.float()
         return compute_std_from_variance(
             noise_var,
             varname="noise_std",
